@@ -298,3 +298,133 @@ pub fn queries(sink: &mut Sink, rng: &mut Rng, thorough: bool, work: &Path) {
   }
   let _ = <Hpx<u64> as MocQty<u64>>::MAX_DEPTH;
 }
+
+/// C16: kill the updater at every named point (cargo feature `verif_hooks`), then a reader / a second writer /
+/// a recovery update must behave as the property says. Everything here is a direct check on the real binary;
+/// the op lines record the point and the observed listing (`before` / `after`) for the evidence.
+pub fn crash_points(sink: &mut Sink, rng: &mut Rng, thorough: bool, work: &Path) {
+  let append_points = ["append.before_data_write", "append.after_data_write", "append.after_index_store", "append.after_meta_store", "append.after_data_flush", "append.after_msync"];
+  let chg_points = ["chgstatus.after_meta_store"];
+  let purge_points = ["purge.before_tmp_flush", "purge.after_tmp_flush", "purge.after_rename"];
+  let reps = if thorough { 12 } else { 2 };
+  let mut case = 0;
+  for rep in 0..reps {
+    for (kind, points) in [("append", &append_points[..]), ("chgstatus", &chg_points[..]), ("purge", &purge_points[..])] {
+      for point in points {
+        case += 1;
+        let dir = work.join(format!("c{}", case));
+        fs::create_dir_all(&dir).unwrap();
+        let file = dir.join("set.bin");
+        let lock = dir.join("set.\"bin\".lock");
+        let tmp = dir.join("set.\"bin\".tmp");
+        // preceding history: a set with a few MOCs (one removed, so that purge has work to do)
+        let mut entries: Vec<Entry> = Vec::new();
+        let mut list_txt = String::new();
+        for id in 1..=(2 + rng.below(3)) {
+          let mut e = random_entry(rng, id);
+          e.status = 3;
+          if e.ranges.is_empty() { e.ranges = vec![0..(1u64 << (2 * (29 - e.depth as u32)))]; }
+          let p = dir.join(format!("m{}.fits", id));
+          e.write_fits(&p, false);
+          list_txt.push_str(&format!("{} {}\n", id, p.display()));
+          entries.push(e);
+        }
+        fs::write(dir.join("list.txt"), &list_txt).unwrap();
+        assert!(run("mocset", &["make", "-l", dir.join("list.txt").to_str().unwrap(), file.to_str().unwrap()], None, &[]).ok);
+        assert!(run("mocset", &["chgstatus", file.to_str().unwrap(), "removed", "1"], None, &[]).ok);
+        let before = list_rows(&file);
+        // the update, killed at `point`; a large MOC (> BufWriter capacity) every other repetition
+        let mut newe = random_entry(rng, 50);
+        newe.status = 3;
+        if rep % 2 == 1 || newe.ranges.is_empty() {
+          newe.depth = 16;
+          let unit = 1u64 << (2 * (29 - 16));
+          newe.ranges = (0..1200u64).map(|k| (3 * k) * unit..(3 * k + 1) * unit).collect(); // 19 kB of ranges
+        }
+        let np = dir.join("new.fits");
+        newe.write_fits(&np, false);
+        let envs = [("MOCSET_VERIF_KILL", *point)];
+        let r = match kind {
+          "append" => run("mocset", &["append", file.to_str().unwrap(), "50", np.to_str().unwrap()], None, &envs),
+          "chgstatus" => run("mocset", &["chgstatus", file.to_str().unwrap(), "deprecated", "2"], None, &envs),
+          _ => run("mocset", &["purge", file.to_str().unwrap()], None, &envs),
+        };
+        sink.count(&format!("kill:{}", point));
+        if r.ok {
+          sink.impl_failures.push(format!("C16 hook point {} was not reached by {}", point, kind));
+        }
+        // (1) a reader started now: list / extract of every listed live id / a query must succeed
+        let l = run("mocset", &["list", file.to_str().unwrap()], None, &[]);
+        let mut reader_ok = l.ok;
+        let rows_now = list_rows(&file);
+        for row in rows_now.split(';') {
+          let f: Vec<&str> = row.split(',').collect();
+          if f.len() >= 5 && f[1] != "removed" {
+            let x = run("mocset", &["extract", file.to_str().unwrap(), f[0], "ascii"], None, &[]);
+            reader_ok &= x.ok;
+            let want = if f[0] == "50" { Some(&newe) } else { entries.iter().find(|e| e.id.to_string() == f[0]) };
+            if let Some(w) = want {
+              if x.out.split_whitespace().collect::<Vec<_>>() != w.ascii().split_whitespace().collect::<Vec<_>>() {
+                sink.impl_failures.push(format!("C16 after a kill at {} the listed MOC {} has wrong / incomplete data", point, f[0]));
+              }
+            }
+          }
+        }
+        let q = run("mocset", &["query", file.to_str().unwrap(), "pos", "10.0", "10.0"], None, &[]);
+        reader_ok &= q.ok;
+        if !reader_ok {
+          sink.impl_failures.push(format!("C16 reader (list/extract/query) FAILED after a kill at {} (update {}): {}", point, kind, (l.err + &q.err).replace('\n', " ").chars().take(200).collect::<String>()));
+        }
+        // (2) the listing is the one before or the one after the update
+        let expected_after: String = match kind {
+          "append" => format!("{};50,valid,{},{},{}", before, newe.depth, newe.ranges.len(), newe.ranges.len() * 2 * if newe.depth <= 13 { 4 } else { 8 }),
+          "chgstatus" => before.replace("2,valid", "2,deprecated"),
+          _ => before.split(';').filter(|r| !r.contains(",removed,")).collect::<Vec<_>>().join(";"),
+        };
+        let view = if rows_now == before { "before" } else if rows_now == expected_after { "after" } else { "OTHER" };
+        if view == "OTHER" {
+          sink.impl_failures.push(format!("C16 after a kill at {} the listing is neither the state before nor after: {} (before {}; after {})", point, rows_now, before, expected_after));
+        }
+        sink.emit(&format!("crashpoint {} {}", kind, point), "consistent", true);
+        // (3) while the (stale) lock exists no second updater proceeds
+        if lock.exists() {
+          let bytes = fs::read(&file).unwrap();
+          let w2 = run("mocset", &["chgstatus", file.to_str().unwrap(), "deprecated", "3"], None, &[]);
+          if w2.ok || fs::read(&file).unwrap() != bytes {
+            sink.impl_failures.push(format!("C16 a second updater proceeded while the lock was held (kill at {})", point));
+          }
+        } else if *point != "purge.after_rename" && !point.ends_with("after_msync") {
+          // the lock must still be there when the updater died before releasing it
+          sink.impl_failures.push(format!("C16 no lock file found after a kill at {}", point));
+        }
+        // (4) recovery: remove the stale lock and temporary file, then a new update must succeed and be correct
+        let _ = fs::remove_file(&lock);
+        let _ = fs::remove_file(&tmp);
+        let mut e2 = random_entry(rng, 60);
+        e2.status = 3;
+        if e2.ranges.is_empty() { e2.ranges = vec![0..(1u64 << (2 * (29 - e2.depth as u32)))]; }
+        let p2 = dir.join("rec.fits");
+        e2.write_fits(&p2, false);
+        let a = run("mocset", &["append", file.to_str().unwrap(), "60", p2.to_str().unwrap()], None, &[]);
+        let x = run("mocset", &["extract", file.to_str().unwrap(), "60", "ascii"], None, &[]);
+        if !a.ok || !x.ok || x.out.split_whitespace().collect::<Vec<_>>() != e2.ascii().split_whitespace().collect::<Vec<_>>() {
+          sink.impl_failures.push(format!("C16 recovery append after a kill at {} failed or yields a wrong MOC: {}", point, a.err.replace('\n', " ").chars().take(200).collect::<String>()));
+        }
+        // and everything listed is still extractable and right
+        for row in list_rows(&file).split(';') {
+          let f: Vec<&str> = row.split(',').collect();
+          if f.len() >= 5 && f[1] != "removed" {
+            let x = run("mocset", &["extract", file.to_str().unwrap(), f[0], "ascii"], None, &[]);
+            let want = match f[0] { "50" => Some(&newe), "60" => Some(&e2), _ => entries.iter().find(|e| e.id.to_string() == f[0]) };
+            if let Some(w) = want {
+              if !x.ok || x.out.split_whitespace().collect::<Vec<_>>() != w.ascii().split_whitespace().collect::<Vec<_>>() {
+                sink.impl_failures.push(format!("C16 after recovery from a kill at {} MOC {} is wrong", point, f[0]));
+              }
+            }
+          }
+        }
+        let _ = fs::remove_dir_all(&dir);
+      }
+    }
+  }
+}
